@@ -4,6 +4,7 @@ import (
 	"encoding/json"
 	"fmt"
 	"io"
+	"sync/atomic"
 
 	"github.com/ipfs/go-cid"
 	unixfsnode "github.com/ipfs/go-unixfsnode"
@@ -313,16 +314,49 @@ func runC20(r *core.Run) {
 	for _, c := range cases {
 		groups[c.File.W] = append(groups[c.File.W], c)
 	}
-	for _, w := range []int{0, 2, 3, 4, 5} {
-		g := groups[w]
-		core.ParallelFor(len(g), workers, func(i int) {
-			c := g[i]
-			r.Evaluations.Add(1)
-			r.Distinct(c.String())
-			if i%397 == 0 {
-				r.Sample(c.String())
-			}
-			c20Case(c, func(sig, detail string) { r.Violate(sig, detail, c) }, r)
-		})
+	// map-iteration order is an owned seam in the overlay build: every case is
+	// run under three orders for every map range of the module (a pure
+	// function of (n, site), so the passes may run their cases in parallel).
+	// Any map range that influenced the load order would make a pass disagree
+	// with the model.
+	passes := []string{"ascending"}
+	if overlayActive {
+		passes = append(passes, "reversed", "rotated")
 	}
+	var mapRangesHit atomic.Int64
+	for _, pass := range passes {
+		pass := pass
+		if overlayActive {
+			setMapPerm(func(n int, site string) []int {
+				mapRangesHit.Add(1)
+				p := make([]int, n)
+				for i := range p {
+					switch pass {
+					case "reversed":
+						p[i] = n - 1 - i
+					case "rotated":
+						p[i] = (i + 1) % n
+					default:
+						p[i] = i
+					}
+				}
+				return p
+			})
+		}
+		for _, w := range []int{0, 2, 3, 4, 5} {
+			g := groups[w]
+			core.ParallelFor(len(g), workers, func(i int) {
+				c := g[i]
+				r.Evaluations.Add(1)
+				r.Distinct(c.String())
+				if i%397 == 0 && pass == "ascending" {
+					r.Sample(c.String())
+				}
+				c20Case(c, func(sig, detail string) { r.Violate(sig+" maporder="+pass, detail, c) }, r)
+			})
+		}
+	}
+	setMapPerm(nil)
+	r.Set("map_order_passes", passes)
+	r.Set("map_ranges_crossed", mapRangesHit.Load())
 }
